@@ -17,6 +17,8 @@ import traceback
 
 ROOT = os.path.dirname(os.path.dirname(os.path.abspath(__file__)))
 REPO = os.environ.get('VERIF_REPO', '/repo')
+# runs against a scratch tree (seeded changes) must not touch the evidence and replays of /repo
+OUT = '' if os.path.realpath(REPO) == '/repo' else '.work/scratch_' + hashlib.sha1(REPO.encode()).hexdigest()[:8] + '/'
 VENV_PY = '/venv/bin/python'
 BASELINE = os.path.join(ROOT, 'contracts', 'baseline_obligations.json')
 KNOWN = os.path.join(ROOT, 'known_findings.json')
@@ -67,7 +69,7 @@ class Run:
         self.bounded = []
         self.trusted = []
         self.assumptions = []
-        self.replay_dir = os.path.join(ROOT, 'replays', pid)
+        self.replay_dir = os.path.join(ROOT, OUT + 'replays', pid)
         os.makedirs(self.replay_dir, exist_ok=True)
         for f in os.listdir(self.replay_dir):
             if f.endswith('.json'):
@@ -394,14 +396,14 @@ def apply_known(run):
         else:
             remaining.append(v)
     dump = [{'fid': v['fid'], 'clause': v['clause'], 'also': v['also']} for v in run.violations if v.get('also') is not None]
-    os.makedirs(os.path.join(ROOT, 'replays', run.pid), exist_ok=True)
-    json.dump({'repo': REPO, 'fails': dump}, open(os.path.join(ROOT, 'replays', run.pid, f'fails_{run.tier}.json'), 'w'))
+    os.makedirs(os.path.join(ROOT, OUT + 'replays', run.pid), exist_ok=True)
+    json.dump({'repo': REPO, 'fails': dump}, open(os.path.join(ROOT, OUT + 'replays', run.pid, f'fails_{run.tier}.json'), 'w'))
     run.violations = remaining
     return known
 
 
 def write_evidence(run, cfg):
-    os.makedirs(os.path.join(ROOT, 'evidence'), exist_ok=True)
+    os.makedirs(os.path.join(ROOT, OUT + 'evidence'), exist_ok=True)
     level = cfg.get('level', 'proof')
     open_known = len(run.known_hits)
     cov = {
@@ -434,7 +436,7 @@ def write_evidence(run, cfg):
         'coverage': cov, 'assumptions': run.assumptions + cfg.get('assumptions', []),
         'wall_s': round(time.time() - run.t0, 2), 'violations': len(run.violations),
     }
-    json.dump(ev, open(os.path.join(ROOT, 'evidence', f'{run.pid}.json'), 'w'), indent=1)
+    json.dump(ev, open(os.path.join(ROOT, OUT + 'evidence', f'{run.pid}.json'), 'w'), indent=1)
 
 
 def check(pid, tier, seed):
